@@ -134,8 +134,8 @@ def near_bound(rec: dict) -> bool:
 
 
 def nlri_bits(rec: dict) -> int:
-    mask = rec['prefix'].split('/')[-1]
-    return 24 * len(rec.get('labels', [])) + (64 if 'rd' in rec else 0) + (int(mask) if mask.isdigit() else 0)
+    masks = [p.split('/')[-1] for p in [rec['prefix']] + rec.get('more_prefixes', [])]
+    return 24 * len(rec.get('labels', [])) + (64 if 'rd' in rec else 0) + max(int(m) if m.isdigit() else 0 for m in masks)
 
 
 # ---------------------------------------------------------------------------- mutations of one value
@@ -211,10 +211,18 @@ def _m_aggregator_asn(draw, rec, over):
     return 'aggregator', 'asn'
 
 
-def _m_label(draw, rec, over):
-    labs = rec['labels']
-    labs[draw(st.integers(0, len(labs) - 1))] = 2**20 if over else 2**20 - 1
+def _m_label_single(draw, rec, over):
+    # both spellings (`label N` and `label [ N M ]`) are separate branches of the parser
+    rec['labels'] = [2**20 if over else 2**20 - 1]
     return 'label', 'value'
+
+
+def _m_label_stack(draw, rec, over):
+    labs = rec['labels']
+    if len(labs) == 1:
+        labs.append(draw(st.sampled_from([0, 16, 1000])))
+    labs[draw(st.integers(0, len(labs) - 1))] = 2**20 if over else 2**20 - 1
+    return 'label', 'value-in-stack'
 
 
 def _m_med(draw, rec, over):
@@ -340,7 +348,8 @@ def _m_generic(draw, rec, over):
 VALUE_MUTATIONS = {
     'as-path': (_m_as_path, lambda r: True),
     'aggregator-asn': (_m_aggregator_asn, lambda r: True),
-    'label': (_m_label, lambda r: 'labels' in r),
+    'label': (_m_label_single, lambda r: 'labels' in r),
+    'label-stack': (_m_label_stack, lambda r: 'labels' in r),
     'med': (_m_med, lambda r: True),
     'local-preference': (_m_local_pref, lambda r: True),
     'community': (_m_community, lambda r: True),
@@ -697,7 +706,7 @@ def vpls_cases(draw) -> dict:
             f = 'extended-community'
             text = draw(st.sampled_from(['l2info:256:0:1500:111', 'l2info:19:256:1500:111', 'l2info:19:0:65536:111', 'l2info:19:0:1500:65536', 'l2info:19:0:1500', 'l2info:255:255:65535:65535']))
             rec['attrs']['ext_community'] = [[text, None]]
-            fits = True if text.endswith('65535:65535') else False
+            fits = text.endswith('65535:65535')
         mutation = {'kind': kind, 'field': f, 'what': {'over-bound': 'value', 'at-bound': 'value', 'l2info': 'l2info-field'}.get(kind, kind)}
     # base + size must stay inside the 20 bit label space (RFC 4761 3.2.1): otherwise the block is not expressible
     if fits is True and isinstance(rec['base'], int) and isinstance(rec['size'], int) and rec['base'] + rec['size'] > 2**20 - 1:
